@@ -35,7 +35,7 @@ PROPS = {
     "C08": P("model_checking", GEN_RULE, 3500, 80000, *O("C08")),
     "C09": P("model_checking", GEN_RULE, 700, 6000, [("MC_Convert.tla", "MC_Convert_quick.cfg")], [("MC_Convert.tla", "MC_Convert_thorough.cfg")], count_all=True),
     "C10": P("model_checking", GEN_RULE, 3000, 80000, [("MC_Convert.tla", "MC_Convert_quick.cfg")], [("MC_Convert.tla", "MC_Convert_thorough.cfg")], count_all=True),
-    "C11": P("model_checking", GEN_RULE, 1500, 50000, *O("C11")),
+    "C11": P("model_checking", GEN_RULE, 3000, 50000, *O("C11")),
     "C12": P("model_checking", GEN_RULE, 3000, 100000, [("MC_Bid.tla", "MC_Bid_quick.cfg")], [("MC_Bid.tla", "MC_Bid_thorough.cfg")], count_all=True),
     "C13": P("model_checking", GEN_RULE, 3000, 80000, [("MC_Codec.tla", "MC_Codec_C13_quick.cfg")], [("MC_Codec.tla", "MC_Codec_C13_thorough.cfg")], count_all=True),
     "C14": P("model_checking", GEN_RULE, 4000, 100000, [("MC_Codec.tla", "MC_Codec_C14_quick.cfg")], [("MC_Codec.tla", "MC_Codec_C14_thorough.cfg")], count_all=True),
